@@ -162,7 +162,46 @@ def r17_4(ctx):
     ctx.ob("R17.4", "end_elem-pops-one-scope", ok, "every path pops exactly one NamespaceMap")
 
 
+def r17_6(ctx):
+    """an unprefixed element in no namespace un-declares an inherited default namespace (xmlns="")"""
+    key, se = nfq.cells(ctx, AREA, "[Serializer]::start_elem")
+    callee = None
+    for pc in nfq.feasible(se):
+        for a, args in pc["actions"]:
+            if a.startswith("self.") and [str(x) for x in args] == ["p1"] and a not in ("self.namespace_stack.push",):
+                callee = a[len("self."):]
+        if callee:
+            break
+    if callee is None:
+        raise AnchorMissing("start_elem: the call that writes the element name (self.<f>(name)) was not found")
+    key, pcs = nfq.cells(ctx, AREA, "XmlSerializer<Wr>::" + callee)
+    undeclares = False
+    for pc in nfq.feasible(pcs):
+        g = pc["guards"]
+        unpref = g.get("p1.prefix.is_none()") is True or g.get("p1.prefix.is_some()") is False
+        nons = g.get("p1.ns.is_empty()") is True
+        if unpref and nons and any(a.endswith(".insert") and [str(x) for x in args] == ["p1"] for a, args in pc["actions"]):
+            undeclares = True
+    ctx.ob("R17.6", "no-namespace-element-undeclares-inherited-default", undeclares,
+           "%s registers the empty default binding for an unprefixed element in no namespace when a non-empty default namespace is inherited" % callee if undeclares else
+           "%s never registers a binding for an unprefixed element in no namespace: under an ancestor's default namespace it is written without xmlns=\"\" and re-parses into that namespace" % callee,
+           "xml5ever serialize " + callee)
+    # the inherited default is the innermost binding of the empty prefix
+    dn = [k for k in nf_common.area_current(ctx, AREA) if "default_namespace" in k]
+    ok = False
+    if len(dn) == 1:
+        key, pcs = nfq.cells(ctx, AREA, dn[0], exact=True)
+        pcs = nfq.feasible(pcs)
+        t = any(any("get(None) matches Some(Some(_))" in k and v for k, v in pc["guards"].items()) and "is_empty()" in str(pc["ret"]) and str(pc["ret"]).startswith("!") and
+                any(a[0].startswith("loop-begin") and "rev()" in a[0] for a in pc["actions"]) for pc in pcs)
+        f = any(str(pc["ret"]) == "false" and any(a[0].startswith("loop-end") for a in pc["actions"]) for pc in pcs)
+        ok = t and f
+    ctx.ob("R17.6", "inherited-default-is-innermost-binding", ok, "scopes are searched innermost first; the first binding of the empty prefix decides; none = no default namespace")
+
+
 def run(ctx):
+    ctx.rule("R17.6", "an unprefixed element in no namespace un-declares an inherited default namespace")
+    ctx.guard("R17.6", "undeclare", lambda: r17_6(ctx))
     ctx.rule("R17.1", "in start_elem nothing that can register a namespace follows the loop writing the xmlns declarations")
     ctx.rule("R17.2", "no Serializer method other than start_elem can reach NamespaceMap::insert")
     ctx.rule("R17.3", "escape table covers & < (text), & \" (attributes), CR (both), is reversible; every write inside quotes is escaped")
